@@ -7,6 +7,10 @@
 import json, os, re, shutil, subprocess, sys, time
 ENV = dict(os.environ, GOFLAGS='-mod=mod', GOPROXY='off', GOSUMDB='off', GOTOOLCHAIN='local', DBUS_SESSION_BUS_ADDRESS='unix:path=/nonexistent')
 ROOT = '/verif/seeded'
+# a worker may run against its own copies (tools/seedpar.sh): SEED_REPO is a worktree of /repo, SEED_VERIF a copy of /verif whose harness
+# go.mod replaces github.com/settlus/chain with that worktree; results always go to /verif/seeded
+REPO = os.environ.get('SEED_REPO', '/repo')
+VERIF = os.environ.get('SEED_VERIF', '/verif')
 
 def sh(cmd, cwd=None, timeout=3600):
     p = subprocess.run(cmd, shell=True, cwd=cwd, env=ENV, stdout=subprocess.PIPE, stderr=subprocess.STDOUT, text=True, timeout=timeout)
@@ -65,33 +69,33 @@ def confirm(pid, m):
 
 def run(pid, m, ids):
     d = f'{ROOT}/{pid}/{m}'
-    rc, o = sh('git -C /repo status --porcelain')
+    rc, o = sh(f'git -C {REPO} status --porcelain')
     if o.strip(): print('refusing: /repo is dirty:\n' + o); sys.exit(2)
-    rc, o = sh(f'git -C /repo apply {d}/patch.diff')
+    rc, o = sh(f'git -C {REPO} apply {d}/patch.diff')
     if rc != 0: print('apply failed', o); sys.exit(2)
     results = {}
     # a run against a mutated tree must not leave its evidence behind: evidence files describe the unchanged tree
     saved = {}
     for cid in ids:
-        ev = f'/verif/evidence/{cid}.json'
+        ev = f'{VERIF}/evidence/{cid}.json'
         if os.path.exists(ev):
             saved[ev] = open(ev).read()
     try:
         for cid in ids:
             t0 = time.time()
-            rc, o = sh(f'./check {cid} --tier quick', cwd='/verif', timeout=7200)
+            rc, o = sh(f'VERIF_REPO={REPO} ./check {cid} --tier quick', cwd=VERIF, timeout=7200)
             lines = [l for l in o.splitlines() if l.startswith(('VIOLATION', 'OK ', 'KNOWN-FINDING', 'ERROR'))]
             results[cid] = dict(rc=rc, lines=lines[:8], wall=round(time.time() - t0, 1))
             # keep the replay next to the seed
             for l in lines:
                 mm = re.search(r'replay=(\S+)', l)
-                if mm and os.path.exists('/verif/' + mm.group(1)) or (mm and os.path.exists(mm.group(1))):
-                    pth = mm.group(1) if os.path.isabs(mm.group(1)) else '/verif/' + mm.group(1)
+                if mm and os.path.exists(VERIF + '/' + mm.group(1)) or (mm and os.path.exists(mm.group(1))):
+                    pth = mm.group(1) if os.path.isabs(mm.group(1)) else VERIF + '/' + mm.group(1)
                     shutil.copy(pth, f'{d}/caught-by-{cid}.replay')
                     break
     finally:
-        sh('git -C /repo checkout -- .')
-        sh('git -C /repo clean -fdq -- . ')
+        sh(f'git -C {REPO} checkout -- .')
+        sh(f'git -C {REPO} clean -fdq -- . ')
         for ev, body in saved.items():
             open(ev, 'w').write(body)
     prev = {}
